@@ -86,7 +86,10 @@ def leaf_matches(leaf: tuple, sym: tuple[str, str]) -> bool:
     return sym[1] in SUBST.get(leaf[1], [leaf[1]])
 
 
-def to_xsd(ast: tuple) -> str:
+def to_xsd(ast: tuple, defs: Optional[dict] = None) -> str:
+    """A group marked ('g', kind, lo, hi, items, 'ref') is rendered as a reference to a named model group;
+    `defs` maps the rendered content of a named group to its name, so that equal referenced groups share
+    ONE definition (and the built particles of its content are then shared Python objects)."""
     t = ast[0]
     if t == 'e':
         return f'<xs:element ref="t:{ast[1]}"{cm.occ_attrs(ast[2], ast[3])}/>'
@@ -94,7 +97,25 @@ def to_xsd(ast: tuple) -> str:
         return f'<xs:element name="{ast[1]}" type="xs:{ast[4]}"{cm.occ_attrs(ast[2], ast[3])}/>'
     if t == 'a':
         return f'<xs:any {WC_SPECS[ast[1]][0]} processContents="lax"{cm.occ_attrs(ast[2], ast[3])}/>'
-    return (f'<xs:{ast[1]}{cm.occ_attrs(ast[2], ast[3])}>' + ''.join(to_xsd(i) for i in ast[4]) + f'</xs:{ast[1]}>')
+    inner = f'<xs:{ast[1]}>' + ''.join(to_xsd(i, defs) for i in ast[4]) + f'</xs:{ast[1]}>'
+    if len(ast) > 5 and ast[5] == 'ref' and defs is not None:
+        name = defs.setdefault(inner, f'G{len(defs)}')
+        return f'<xs:group ref="t:{name}"{cm.occ_attrs(ast[2], ast[3])}/>'
+    return (f'<xs:{ast[1]}{cm.occ_attrs(ast[2], ast[3])}>' + ''.join(to_xsd(i, defs) for i in ast[4]) + f'</xs:{ast[1]}>')
+
+
+def with_refs(rng, ast: tuple, p: float = 0.5, top: bool = True) -> tuple:
+    """marks some nested sequence/choice groups as references to named model groups"""
+    if ast[0] != 'g':
+        return ast
+    items = [with_refs(rng, i, p, False) for i in ast[4]]
+    if not top and ast[1] != 'all' and rng.random() < p:
+        return ('g', ast[1], ast[2], ast[3], items, 'ref')
+    return ('g', ast[1], ast[2], ast[3], items)
+
+
+def has_refs(ast: tuple) -> bool:
+    return ast[0] == 'g' and (len(ast) > 5 or any(has_refs(i) for i in ast[4]))
 
 
 def show(ast: tuple) -> str:
@@ -102,7 +123,7 @@ def show(ast: tuple) -> str:
         return cm.show(('e', f'{ast[1]}:{ast[4]}', ast[2], ast[3]))
     if ast[0] == 'g':
         sep = {'sequence': ',', 'choice': '|', 'all': '&'}[ast[1]]
-        inner = '(' + sep.join(show(i) for i in ast[4]) + ')'
+        inner = ('@' if len(ast) > 5 else '') + '(' + sep.join(show(i) for i in ast[4]) + ')'
         return inner + cm.show(('e', '', ast[2], ast[3]))
     return cm.show(ast)
 
@@ -121,9 +142,19 @@ def build_schema(models: list[tuple], v11: bool, validation: str = 'lax'):
     import xmlschema
     cls = xmlschema.XMLSchema11 if v11 else xmlschema.XMLSchema10
     body = []
+    groups: list[str] = []
     for k, m in enumerate(models):
-        body.append(f'<xs:element name="m{k}"><xs:complexType>{to_xsd(m)}</xs:complexType></xs:element>')
-    return cls(HEAD + '\n'.join(body) + '</xs:schema>', validation=validation)
+        defs: dict[str, str] = {}
+        xsd = to_xsd(m, defs)
+        for inner, name in defs.items():     # named groups are per model: G0_k, G1_k, …
+            xsd = xsd.replace(f'ref="t:{name}"', f'ref="t:{name}_{k}"')
+        for inner, name in defs.items():
+            fixed = inner
+            for name2 in defs.values():
+                fixed = fixed.replace(f'ref="t:{name2}"', f'ref="t:{name2}_{k}"')
+            groups.append(f'<xs:group name="{name}_{k}">{fixed}</xs:group>')
+        body.append(f'<xs:element name="m{k}"><xs:complexType>{xsd}</xs:complexType></xs:element>')
+    return cls(HEAD + '\n'.join(groups + body) + '</xs:schema>', validation=validation)
 
 
 # ---------------------------------------------------------------------------------------------
@@ -192,6 +223,34 @@ def small_random(rng, nleaves: int, names: list[str], occs: list, depth: int = 2
             continue
 
 
+def flat_choices() -> list[tuple]:
+    """the fragment of theorem checkModel_refines_partial: choice{1,1} of 1..3 references to the plain
+    global elements a, b, c with every occurrence range of lib_cm.OCC_SMALL (9 723 models)"""
+    opts = [('e', n, lo, hi) for n in ('a', 'b', 'c') for lo, hi in cm.OCC_SMALL]
+    out = []
+    for k in (1, 2, 3):
+        for items in itertools.product(opts, repeat=k):
+            out.append(('g', 'choice', 1, 1, list(items)))
+    return out
+
+
+def shared_ref_model(rng, v11: bool) -> tuple:
+    """the same named group referenced twice in one model (its particles are then shared objects)"""
+    occs = [(1, 1), (1, 1), (0, 1), (0, None), (1, 2), (2, 2)]
+    g = small_random(rng, rng.choice([1, 2, 2]), ['a', 'b', 'h', 's'], occs, depth=1, any_p=0.1)
+    lo1, hi1 = rng.choice(occs)
+    lo2, hi2 = rng.choice(occs)
+    r1 = ('g', g[1], lo1, hi1, g[4], 'ref')
+    r2 = ('g', g[1], lo2, hi2, g[4], 'ref')
+    items = [r1]
+    if rng.random() < 0.5:
+        lo, hi = rng.choice(occs)
+        items.append(('e', rng.choice(['a', 'b', 'c']), lo, hi))
+    items.append(r2)
+    lo, hi = rng.choice(occs)
+    return ('g', rng.choice(['sequence', 'choice']), lo, hi, items)
+
+
 def edc_models() -> list[tuple]:
     """small models whose point is Element Declarations Consistent (directly and through
     substitution groups), with and without a separating particle"""
@@ -210,13 +269,12 @@ def edc_models() -> list[tuple]:
 
 
 def wildcard_models(v11: bool) -> list[tuple]:
-    """every pair of leaves from {element, wildcard specs} in the two-item sequence / choice shapes"""
+    """every pair of leaves from {a, the substitution head h and its members, wildcard specs} in the two-item
+    sequence / choice shapes"""
     specs = [s for s, (_, need) in WC_SPECS.items() if v11 or not need]
-    pool = [('e', 'a'), ('e', 'h'), ('e', 's')] + [('a', s) for s in specs]
+    pool = [('e', 'a'), ('e', 'h'), ('e', 's'), ('e', 's2'), ('e', 'd')] + [('a', s) for s in specs]
     out = []
     for x, y in itertools.product(pool, repeat=2):
-        if x[0] == 'e' and y[0] == 'e':
-            continue
         for kind in ('sequence', 'choice'):
             for (l1, h1), (l2, h2) in (((1, 1), (1, 1)), ((0, 1), (1, 1)), ((1, None), (1, 1)), ((1, 1), (0, None)),
                                        ((0, 1), (0, 1))):
@@ -288,10 +346,21 @@ class Introspector15:
         self.ids: dict[int, int] = {}
         self.objs: list[Any] = []
         self.root = group
-        self.json = self.walk(group)
+        # M reads the tree as check_model iterates it (`iter(group)`: a reference to a named group has the
+        # named group itself as its only member); S/O read the tree validation uses (`group.content`: a
+        # reference has the members of the named group)
+        self.json = self.walk(group, False)
+        self.cjson = self.walk(group, True)
+        # the same tree with *occurrence* ids (a particle object shared by two places of the model, which
+        # happens with references to named groups, is two particles of the content model): this is the
+        # tree the specification and the oracle read; `occ_obj[k]` = object id of occurrence k
+        self.occ_obj: list[int] = []
+        self.sjson = self.renumber(self.cjson)
+        self.shared = len(set(self.occ_obj)) != len(self.occ_obj)
         self.type_ids = type_ids
         self.einfo = []
         self.types = []
+        decl_of: dict[int, list] = {}
         for i, o in enumerate(self.objs):
             if isinstance(o, XsdElement):
                 subs = [cm.split_qname(x.name) + [self.tid(x.type)] for x in o.iter_substitutes()]
@@ -304,7 +373,16 @@ class Introspector15:
                     ge = o.maps.elements.get(n)
                     if ge is not None:
                         decls.append(cm.split_qname(n) + [self.tid(ge.type)])
-                self.types.append([i, decls])
+                decl_of[i] = decls
+        self.types = [[k, decl_of[i]] for k, i in enumerate(self.occ_obj) if i in decl_of]
+
+    def renumber(self, j: dict) -> dict:
+        k = len(self.occ_obj)
+        self.occ_obj.append(j['id'])
+        out = dict(j, id=k)
+        if j['t'] == 'g':
+            out['items'] = [self.renumber(i) for i in j['items']]
+        return out
 
     def oid(self, obj: Any) -> int:
         k = id(obj)
@@ -313,14 +391,14 @@ class Introspector15:
             self.objs.append(obj)
         return self.ids[k]
 
-    def walk(self, p: Any) -> dict:
+    def walk(self, p: Any, content: bool) -> dict:
         from xmlschema.validators import XsdGroup, XsdAnyElement
         from harness.props.c16 import introspect as wc_introspect
         pid = self.oid(p)
         hi = p.max_occurs
         if isinstance(p, XsdGroup):
             return {'t': 'g', 'id': pid, 'k': p.model, 'lo': p.min_occurs, 'hi': hi,
-                    'items': [self.walk(i) for i in p.content]}
+                    'items': [self.walk(i, content) for i in (p.content if content else list(p))]}
         if isinstance(p, XsdAnyElement):
             return {'t': 'a', 'id': pid, 'lo': p.min_occurs, 'hi': hi, 'w': wc_introspect(p), 'prec': []}
         names = [cm.split_qname(p.name)] + sorted(cm.split_qname(n) for n in (p.substitutes or ()))
@@ -360,8 +438,8 @@ class Introspector15:
 
     def request(self, v11: bool, fuel: int) -> dict:
         defined = sorted(cm.split_qname(n) for n in self.root.maps.elements if n.startswith('{' + TNS + '}'))
-        return {'v11': v11, 'n': len(self.objs), 'model': self.json, 'einfo': self.einfo, 'defined': defined,
-                'sigma': self.sigma(), 'types': self.types, 'fuel': fuel}
+        return {'v11': v11, 'n': len(self.objs), 'model': self.json, 'smodel': self.sjson, 'einfo': self.einfo,
+                'defined': defined, 'sigma': self.sigma(), 'types': self.types, 'fuel': fuel}
 
 
 def ast_of_json(j: dict) -> tuple:
